@@ -229,9 +229,16 @@ func cmdCheck(args []string) {
 	claimed := map[string]bool{}
 	discharged := 0
 	knownHit := map[*KnownFinding]int{}
+	replays := 0
 	reportViolation := func(a *AggObl, reason string) {
 		violations++
 		file := filepath.Join(replayDir, sanitize(a.Name)+".json")
+		if replays >= 4 && a.Failing != nil {
+			// replaying is expensive (one solver call per input leaf, then go test): the first few
+			// violations get a replay attempt, the others carry the model only
+			a.Failing.Result = "sat-not-replayed"
+		}
+		replays++
 		rep := P.writeReplay(file, *prop, a, reason, solv)
 		line := fmt.Sprintf("VIOLATION property=%s replay=%s obligation=%s %s", *prop, file, a.Name, reason)
 		if !rep {
